@@ -78,8 +78,22 @@ package xml
 //@   ensures[S]  l.r.start == l.r.pos
 //@   loop 1 decreases len(l.r.buf) - l.r.pos
 
+// an attribute name ends where a tag name would, or at '='
+//@ pred xmlAttrNameEnd(c, c1) := xmlNameEnd(c, c1) || c == '='
+//@ pred xmlKeyClean(l, lo, hi) := forall(k, lo, hi, !xmlAttrNameEnd(l.r.buf[k], l.r.buf[k+1]))
 //@ func Lexer.shiftAttribute
 //@   preserves[S] scanInv(l)
+//@   ensures[F,C11,local] @key-extent: forall(k, 0, len(l.text), !xmlAttrNameEnd(l.text[k], l.text[k+1]))
+//@   loop 1 invariant[F] xmlKeyClean(l, old(l.r.pos), l.r.pos)
+//@   loop 2 invariant[F] xmlKeyClean(l, old(l.r.pos), nameEnd + l.r.start)
+//@   loop 3 invariant[F] xmlKeyClean(l, old(l.r.pos), nameEnd + l.r.start)
+//@   loop 4 invariant[F] xmlKeyClean(l, old(l.r.pos), nameEnd + l.r.start)
+//@   loop 5 invariant[F] xmlKeyClean(l, old(l.r.pos), nameEnd + l.r.start)
+// a quoted value runs to the first occurrence of its own quote; an unquoted one to white space or the tag's end
+//@   ensures[F,C11,local] @val-quoted: l.attrVal != nil && len(l.attrVal) > 0 && (l.attrVal[0] == '"' || l.attrVal[0] == '\'') ==> forall(k, 1, len(l.attrVal) - 1, l.attrVal[k] != l.attrVal[0])
+//@   ensures[F,C11,local] @val-unquoted: l.attrVal != nil && len(l.attrVal) > 0 && l.attrVal[0] != '"' && l.attrVal[0] != '\'' ==> forall(k, 0, len(l.attrVal), !xmlNameEnd(l.attrVal[k], l.attrVal[k+1]))
+//@   loop 4 invariant[F] (delim == '"' || delim == '\'') && l.r.buf[attrPos + l.r.start] == delim && attrPos + l.r.start < l.r.pos && forall(k, attrPos + l.r.start + 1, l.r.pos, l.r.buf[k] != delim)
+//@   loop 5 invariant[F] delim != '"' && delim != '\'' && l.r.buf[attrPos + l.r.start] == delim && forall(k, attrPos + l.r.start, l.r.pos, !xmlNameEnd(l.r.buf[k], l.r.buf[k+1]))
 //@   ensures[F,C11] @no-nul: forall(k, old(l.r.pos), l.r.pos, l.r.buf[k] != 0)
 //@   loop * candidate[F] forall(k, old(l.r.pos), l.r.pos, l.r.buf[k] != 0)
 //@   ensures[T]  sameMem(result, l.r.buf[old(l.r.start):l.r.pos]) && cap(result) == len(result)
